@@ -1817,7 +1817,16 @@ impl DtlsInner {
                         } else {
                             (&keys.server_write_key, &keys.server_write_iv)
                         };
-                        let full_seq = ((ctx.epoch as u64) << 48) | ctx.sequence_number;
+                        // Once connected, application records draw their sequence
+                        // numbers from `write_seq`; the alert is sealed under the same
+                        // key and must come from the same counter, or it would reuse
+                        // the nonce of an application record already sent.
+                        let seq = if matches!(*self.state.lock(), DtlsState::Connected(..)) {
+                            self.write_seq.fetch_add(1, Ordering::SeqCst)
+                        } else {
+                            ctx.sequence_number
+                        };
+                        let full_seq = ((ctx.epoch as u64) << 48) | seq;
                         if let Ok(encrypted) = encrypt_record(
                             ContentType::Alert,
                             ProtocolVersion::DTLS_1_2,
@@ -1830,7 +1839,7 @@ impl DtlsInner {
                                 content_type: ContentType::Alert,
                                 version: ProtocolVersion::DTLS_1_2,
                                 epoch: ctx.epoch,
-                                sequence_number: ctx.sequence_number,
+                                sequence_number: seq,
                                 payload: Bytes::from(encrypted),
                             };
                             let mut buf = BytesMut::new();
